@@ -130,8 +130,8 @@ class PipeWorld(OracleWorld):
 
     def _cap(self, m, st, c):
         v = deref_all(m, st, c)
-        if isinstance(v, Adt):
-            return v.ty
+        if isinstance(v, (Adt, ip.I)):
+            return v  # (hashable values: the closure's pipeline is extracted with what it really captured)
         return repr(v)
 
     def enum_variants(self, ty):
